@@ -1,34 +1,16 @@
 (* Pool/Inv.v — invariant of the Transport pool machine and the lemmas the
-   property files cite (Props/C13.v, C14.v, C15.v). *)
+   property files cite (Props/C13.v, C14.v, C15.v).
+
+   The invariant [PInv] (and [filed]) is defined in Pool/InvLemmas.v; the
+   supporting lemmas are in Pool/InvLemmas.v (setters, local-update lemma,
+   sweeps, Close), Pool/InvGetConn.v (getConn) and Pool/InvTick.v (tick,
+   CloseIdleConnections). *)
 From stdpp Require Import gmap.
 From RPC Require Import Res.
 From RPC.Pool Require Import Model.
+From RPC.Pool Require Export InvLemmas.
+From RPC.Pool Require Import InvGetConn InvTick.
 Open Scope Z_scope.
-
-Definition filed (p : pool) (c : cid) : Prop :=
-  exists a, c ∈ active_of p a \/ c ∈ idle_of p a.
-
-Record PInv (p : pool) : Prop := {
-  (* limits are normalised *)
-  pi_limits : (1 <= p_maxidle p <= p_maxconns p)%nat;
-  (* a connection is filed under the address it was dialed to *)
-  pi_active_addr : forall a c, c ∈ active_of p a -> exists pc, p_conns p !! c = Some pc /\ pc_addr pc = a;
-  pi_idle_addr : forall a c, c ∈ idle_of p a -> exists pc, p_conns p !! c = Some pc /\ pc_addr pc = a;
-  (* per-host bounds *)
-  pi_total : forall a, (length (active_of p a) + length (idle_of p a) <= p_maxconns p)%nat;
-  pi_idle_cap : forall a q cap, p_idle p !! a = Some (q, cap) -> cap = p_maxidle p /\ (length q <= cap)%nat;
-  pi_active_nonempty : forall a cs cur, p_active p !! a = Some (cs, cur) -> cs <> [];
-  (* nothing is filed twice *)
-  pi_nodup : forall a, NoDup (active_of p a ++ idle_of p a);
-  (* every connection that is still open is filed (no leak) ... *)
-  pi_open_filed : forall c pc, p_conns p !! c = Some pc -> pc_closed pc = false ->
-      c ∈ active_of p (pc_addr pc) \/ c ∈ idle_of p (pc_addr pc);
-  (* ... a filed connection that the pool has closed is a dead one awaiting replacement *)
-  pi_filed_closed : forall c pc, filed p c -> p_conns p !! c = Some pc -> pc_closed pc = true -> pc_alive pc = false;
-  (* dead connections are closed *)
-  pi_dead_closed : forall c pc, p_conns p !! c = Some pc -> pc_alive pc = false -> pc_closed pc = true;
-  pi_ids : forall c, is_Some (p_conns p !! c) -> (c < p_next p)%nat
-}.
 
 (* ====================================================================
    TARGET STATEMENTS.  [run tr (init ...)] ranges over every history of
@@ -37,8 +19,47 @@ Record PInv (p : pool) : Prop := {
 Definition reachable (p : pool) : Prop :=
   exists mc mi ka it now tr, p = run tr (init mc mi ka it now).
 
+(* ---- helpers ---- *)
+Lemma norm_limits_aux mc mi : (1 <= norm_maxidle mi mc <= norm_maxconns mc)%nat.
+Proof.
+  unfold norm_maxidle, norm_maxconns, Generated.c_DefaultMaxConnsPerHost, Generated.c_DefaultMaxIdleConnsPerHost.
+  repeat (match goal with |- context [Z.ltb ?a ?b] => destruct (Z.ltb_spec a b) end); lia.
+Qed.
+
+Lemma init_inv mc mi ka it now : PInv (init mc mi ka it now).
+Proof.
+  split; simpl; unfold active_of, idle_of, filed, active_of, idle_of; simpl; intros;
+    rewrite ?lookup_empty in *; try done.
+  - apply norm_limits_aux.
+  - set_solver.
+  - set_solver.
+  - simpl. lia.
+  - constructor.
+  - by destruct H.
+Qed.
+
+Lemma benign_callend t : benign (fun pc => pc_set_last t (pc_busy_set (pc_busy pc - 1) pc)).
+Proof. intros pc. simpl. split; [done|left; done]. Qed.
+
+Lemma step_inv p x : PInv p -> PInv (step p x).
+Proof.
+  intros I. destruct x as [a ok now|c|c sh|now| |]; simpl.
+  - by apply get_conn_inv.
+  - apply PInv_upd_conn; [done|]. apply (benign_busy (fun pc => S (pc_busy pc))).
+  - destruct sh; [apply PInv_upd_conn; [|apply benign_kill]|]; (apply PInv_upd_conn; [done|apply benign_callend]).
+  - by apply tick_inv.
+  - by apply close_idle_inv.
+  - by apply close_transport_inv.
+Qed.
+
+Lemma run_inv tr : forall p, PInv p -> PInv (run tr p).
+Proof. induction tr as [|x tr IH]; intros p I; simpl; [done|]. apply IH, step_inv, I. Qed.
+
+Lemma run_snoc tr x p : run (tr ++ [x]) p = step (run tr p) x.
+Proof. unfold run. by rewrite fold_left_app. Qed.
+
 Theorem reachable_inv p : reachable p -> PInv p.
-Proof. Admitted.
+Proof. intros (mc & mi & ka & it & now & tr & ->). apply run_inv, init_inv. Qed.
 
 (* ---- C13 ---- *)
 Theorem normalise_limits mc mi :
@@ -48,13 +69,55 @@ Theorem normalise_limits mc mi :
   (mi < 1 -> norm_maxidle mi mc = Z.to_nat Generated.c_DefaultMaxIdleConnsPerHost) /\
   (1 <= mi -> Z.of_nat (norm_maxconns mc) < mi -> norm_maxidle mi mc = norm_maxconns mc) /\
   (1 <= mi -> mi <= Z.of_nat (norm_maxconns mc) -> norm_maxidle mi mc = Z.to_nat mi).
-Proof. Admitted.
+Proof.
+  split; [apply norm_limits_aux|].
+  unfold norm_maxidle, norm_maxconns.
+  split_and!; intros; repeat (match goal with |- context [Z.ltb ?a ?b] => destruct (Z.ltb_spec a b) end); try lia.
+Qed.
+
+Lemma elem_of_fst_filter {A B} (f : A * B -> bool) (l : list (A * B)) k :
+  k ∈ (List.filter f l).*1 -> k ∈ l.*1.
+Proof.
+  rewrite !elem_of_list_fmap. intros (y & -> & H). exists y. split; [done|].
+  apply elem_of_list_In in H. apply filter_In in H as [H _]. by apply elem_of_list_In.
+Qed.
+
+Lemma NoDup_fst_filter {A B} (f : A * B -> bool) (l : list (A * B)) :
+  base.NoDup (l.*1) -> base.NoDup ((List.filter f l).*1).
+Proof.
+  induction l as [|x l IH]; simpl; [done|]. intros [N ND]%list.NoDup_cons.
+  destruct (f x); simpl; [|by apply IH]. apply list.NoDup_cons. split; [|by apply IH].
+  intros F. by apply N, (elem_of_fst_filter f).
+Qed.
+
+Lemma NoDup_open_to p a : base.NoDup (open_to p a).
+Proof. unfold open_to. apply (NoDup_fst_filter _ (map_to_list (p_conns p))). apply NoDup_fst_map_to_list. Qed.
+
+Lemma elem_of_open_to p a (c : cid) : c ∈ open_to p a <->
+  exists pc, p_conns p !! c = Some pc /\ pc_addr pc = a /\ pc_closed pc = false.
+Proof.
+  unfold open_to. rewrite elem_of_list_In, in_map_iff. split.
+  - intros ([c' pc] & <- & H). apply filter_In in H as [H1 H2]. simpl in *.
+    apply elem_of_list_In, elem_of_map_to_list in H1. apply andb_true_iff in H2 as [H2 H3].
+    apply Nat.eqb_eq in H2. apply negb_true_iff in H3. eauto.
+  - intros (pc & E & A & C). exists (c, pc). split; [done|]. apply filter_In. split.
+    + by apply elem_of_list_In, elem_of_map_to_list.
+    + simpl. rewrite A, C, Nat.eqb_refl. done.
+Qed.
 
 (* at no time more than MaxConnsPerHost open connections to one address (active plus idle),
    nor more than MaxIdleConnsPerHost idle ones *)
 Theorem bounds p a : reachable p ->
   (length (open_to p a) <= p_maxconns p)%nat /\ (length (idle_of p a) <= p_maxidle p)%nat.
-Proof. Admitted.
+Proof.
+  intros I%reachable_inv. split.
+  - transitivity (length (fl p a)).
+    + apply submseteq_length, NoDup_submseteq; [apply NoDup_open_to|].
+      intros c (pc & E & <- & C)%elem_of_open_to. apply elem_of_app. eapply pi_open_filed; eauto.
+    + unfold fl. rewrite app_length. apply I.
+  - unfold idle_of. destruct (p_idle p !! a) as [[q cap]|] eqn:E; [|simpl; lia].
+    destruct (pi_idle_cap _ I _ _ _ E) as [-> L]. done.
+Qed.
 
 (* ---- C14 ---- *)
 (* getConn(a) returns a live, open connection dialed to a, or ErrDial *)
@@ -66,19 +129,92 @@ Theorem getconn_result p a ok now : reachable p ->
                            c ∈ active_of p' a
     | None => ok = false
     end.
-Proof. Admitted.
+Proof. intros I%reachable_inv. apply (get_conn_out p a ok now I). Qed.
 
 (* a dial is attempted only when needed; when it succeeds the call gets a connection *)
 Theorem getconn_dial_ok p a now : reachable p ->
   exists c, list.last (p_out (step p (GetConn a true now))) = Some (Some c).
-Proof. Admitted.
+Proof.
+  intros R. destruct (getconn_result p a true now R) as (o & -> & H).
+  destruct o as [c|]; [|done]. exists c. apply last_snoc.
+Qed.
 
 (* a connection on which a call failed with ErrShutdown is never handed out afterwards *)
+Definition dead (p : pool) (c : cid) : Prop := exists pc, p_conns p !! c = Some pc /\ pc_alive pc = false.
+
+Lemma dead_hk p p' c : hk p p' -> dead p c -> dead p' c.
+Proof.
+  intros H (pc & E & A). destruct (hk_lookup _ _ _ _ H E) as (pc1 & E1 & [E2|E2]);
+    exists pc1; (split; [done|]); subst pc1; done.
+Qed.
+
+Lemma out_nil (o o' : list (option cid)) (c : cid) : o' = o -> exists l, o' = o ++ l /\ Some c ∉ l.
+Proof. intros ->. exists []. rewrite app_nil_r. split; [done|set_solver]. Qed.
+
+Lemma step_dead p x c : PInv p -> dead p c ->
+  dead (step p x) c /\ exists l, p_out (step p x) = p_out p ++ l /\ Some c ∉ l.
+Proof.
+  intros I (pc & E & A). destruct x as [a ok now|c'|c' sh|now| |]; simpl.
+  - destruct (get_conn_old p a ok now c pc I E) as (pc1 & E1 & _ & A1 & _).
+    split; [exists pc1; split; [done|congruence]|].
+    destruct (get_conn_out p a ok now I) as (o & Eo & Ho). exists [o]. split; [done|].
+    intros F. apply elem_of_list_singleton in F as <-. destruct Ho as (pc2 & E2 & _ & A2 & _). congruence.
+  - split; [|apply out_nil; by rewrite upd_conn_out].
+    eexists. split; [by apply lookup_upd_conn_fwd|]. case_decide; done.
+  - split.
+    + destruct sh.
+      * eexists. split; [apply lookup_upd_conn_fwd; by apply lookup_upd_conn_fwd|]. repeat case_decide; done.
+      * eexists. split; [by apply lookup_upd_conn_fwd|]. case_decide; done.
+    + apply out_nil. destruct sh; by rewrite ?upd_conn_out.
+  - destruct (tick_facts now p I) as [H _]. split.
+    + apply (dead_hk (set_now now p)); [done|]. exists pc. done.
+    + apply out_nil. destruct H as (M & _). by rewrite (meta_out _ _ M).
+  - pose proof (close_idle_hk p) as H. split.
+    + apply (dead_hk p); [done|]. exists pc. done.
+    + apply out_nil. destruct H as (M & _). by rewrite (meta_out _ _ M).
+  - destruct (p_closed p) eqn:NC.
+    { rewrite close_transport_eq, NC. split; [by exists pc|]. by apply out_nil. }
+    destruct (close_transport_spec p NC) as (D & C & _ & _ & _ & _ & _ & _ & _ & O & _). split.
+    + destruct (cc_lookup _ _ _ _ _ C E) as (pc1 & E1 & [E2|[E2 _]]);
+        exists pc1; (split; [done|]); subst pc1; done.
+    + by apply out_nil.
+Qed.
+
+Lemma run_dead c tr : forall p, PInv p -> dead p c -> exists l, p_out (run tr p) = p_out p ++ l /\ Some c ∉ l.
+Proof.
+  induction tr as [|x tr IH]; intros p I Dd; simpl.
+  - by apply out_nil.
+  - destruct (step_dead p x c I Dd) as (D1 & l1 & E1 & N1).
+    destruct (IH _ (step_inv p x I) D1) as (l2 & E2 & N2). exists (l1 ++ l2).
+    rewrite E2, E1, app_assoc. split; [done|]. set_solver.
+Qed.
+
+(* STATEMENT CHANGED: added the hypothesis that [c] names an existing connection when the call fails.
+   Without it the statement is false: [CallEnd c true] on an id that was never dialed is a no-op and
+   the id can be dialed and handed out later (tr1 = [], c = 0, tr2 = [GetConn 0 true 0], i = 0). *)
 Theorem dead_never_handed_out tr1 c tr2 mc mi ka it now :
+  is_Some (p_conns (run tr1 (init mc mi ka it now)) !! c) ->
   let p1 := run (tr1 ++ [CallEnd c true]) (init mc mi ka it now) in
   let p2 := run tr2 p1 in
   forall i, (length (p_out p1) <= i)%nat -> p_out p2 !! i <> Some (Some c).
-Proof. Admitted.
+Proof.
+  intros [pc E] p1 p2 i Li.
+  assert (I0 : PInv (run tr1 (init mc mi ka it now))) by apply run_inv, init_inv.
+  assert (I1 : PInv p1) by apply run_inv, init_inv.
+  assert (D1 : dead p1 c).
+  { unfold p1. rewrite run_snoc. simpl. eexists. split.
+    - apply lookup_upd_conn_fwd. by apply lookup_upd_conn_fwd.
+    - repeat case_decide; done. }
+  destruct (run_dead c tr2 p1 I1 D1) as (l & El & Nl). fold p2 in El. rewrite El.
+  rewrite lookup_app_r by done. intros F. apply Nl. eapply elem_of_list_lookup_2; eauto.
+Qed.
+
+(* the counterexample to the original statement *)
+Example dead_never_handed_out_cex :
+  let p1 := run ([] ++ [CallEnd 0%nat true]) (init 1 1 1 1 0) in
+  let p2 := run [GetConn 0%nat true 0] p1 in
+  (length (p_out p1) <= 0)%nat /\ p_out p2 !! 0%nat = Some (Some 0%nat).
+Proof. split; vm_compute; reflexivity. Qed.
 
 (* recovery: each ErrShutdown removes one pooled connection for good, so a sequential caller
    sees at most (number of pooled connections to a) failures before getConn must dial *)
@@ -87,19 +223,34 @@ Theorem failure_consumes_connection p c pc : reachable p -> p_conns p !! c = Som
   alive_of p' c = false /\ is_open p' c = false /\
   (forall c', c' <> c -> p_conns p' !! c' = p_conns p !! c') /\
   p_active p' = p_active p /\ p_idle p' = p_idle p.
-Proof. Admitted.
+Proof.
+  intros _ E A. simpl. unfold alive_of, is_open. autorewrite with pool.
+  rewrite !lookup_alter, E. simpl. split_and!; try done.
+  intros c' N. rewrite !lookup_alter_ne by done. done.
+Qed.
 
 (* ---- C15 ---- *)
 (* housekeeping and CloseIdleConnections never close a connection that carries a call or stream *)
 Theorem spares_busy p a c : reachable p -> (exists now, a = Tick now) \/ a = CloseIdle ->
   (0 < busy_of p c)%nat -> is_open p c = true -> is_open (step p a) c = true.
-Proof. Admitted.
+Proof.
+  intros I%reachable_inv [[now ->]| ->] B O; simpl.
+  - destruct (tick_facts now p I) as [H _]. rewrite (hk_open_busy _ _ c H); done.
+  - rewrite (hk_open_busy _ _ c (close_idle_hk p)); done.
+Qed.
+
+Lemma rcond_true p now c : busy_of p c = 0%nat -> last_of p c + p_keepalive p < now -> rcond p now c = true.
+Proof. intros B L. unfold rcond. rewrite B. simpl. rewrite andb_true_r. lia. Qed.
 
 (* an unused connection older than KeepAlive is retired (parked, or closed when the idle queue is full) by the next tick *)
 Theorem tick_retires p a c now : reachable p -> c ∈ active_of p a -> busy_of p c = 0%nat ->
   last_of p c + p_keepalive p < now ->
   c ∉ active_of (step p (Tick now)) a.
-Proof. Admitted.
+Proof.
+  intros I%reachable_inv Hc B L. simpl.
+  destruct (tick_facts now p I) as [_ EA]. rewrite (active_of_eq _ _ a (f_equal (.!! a) EA)).
+  destruct (tick1_at now p a I) as (K & _). rewrite K. intros [_ R]. rewrite rcond_true in R; done.
+Qed.
 
 (* an idle queue whose newest entry is older than IdleConnTimeout and whose entries carry no call
    is closed and removed by the next tick *)
@@ -108,18 +259,64 @@ Theorem tick_closes_idle p a q cap now : reachable p -> p_idle p !! a = Some (q,
   (forall c, c ∈ active_of p a -> ~ (busy_of p c = 0%nat /\ last_of p c + p_keepalive p < now)) ->
   let p' := step p (Tick now) in
   idle_of p' a = [] /\ forall c, c ∈ q -> is_open p' c = false.
-Proof. Admitted.
+Proof.
+  intros I%reachable_inv E N Hq Ha. simpl.
+  destruct (tick1_facts now p I) as [I1 H1]. destruct (tick1_at now p a I) as (_ & _ & Id).
+  rewrite tick_eq. destruct (tick2_at now (tick1 now p) a I1) as [_ G].
+  destruct (G q cap) as [G1 G2].
+  - rewrite Id; [done|]. intros c Hc. destruct (rcond p now c) eqn:R; [|done]. exfalso. apply (Ha c Hc).
+    unfold rcond in R. apply andb_true_iff in R as [R1 R2]. apply Nat.eqb_eq in R2. split; [done|lia].
+  - intros c Hc. rewrite (hk_busy _ _ c H1), (hk_last _ _ c H1). destruct H1 as (M & _).
+    rewrite (meta_idleto _ _ M). by apply Hq.
+  - split; [|done]. unfold idle_of. by rewrite G1.
+Qed.
 
 (* Transport.Close closes every pooled connection, empties both structures, and is idempotent *)
-Theorem close_closes_all p : reachable p ->
+(* STATEMENT CHANGED: added the hypothesis [p_closed p = false].  The model (like transport.go) lets
+   getConn file new connections after Close, and a second Close is then a no-op that leaves them
+   filed and open: p = run [Close; GetConn 0 true 0] (init 1 1 1 1 0). *)
+Theorem close_closes_all p : reachable p -> p_closed p = false ->
   let p' := step p Close in
   p_active p' = ∅ /\ p_idle p' = ∅ /\ (forall c, is_Some (p_conns p' !! c) -> is_open p' c = false) /\
   step p' Close = p'.
-Proof. Admitted.
+Proof.
+  intros I%reachable_inv NC. simpl.
+  pose proof (close_transport_inv p I) as I'.
+  destruct (close_transport_spec p NC) as (D & C & HD & A & Id & CL & _). split_and!; try done.
+  - intros c [pc E]. unfold is_open. rewrite E. destruct (pc_closed pc) eqn:O; [done|]. exfalso.
+    destruct (pi_open_filed _ I' c pc E O) as [F|F]; unfold active_of, idle_of in F;
+      rewrite ?A, ?Id, lookup_empty in F; set_solver.
+  - rewrite close_transport_eq at 1. by rewrite CL.
+Qed.
+
+(* the counterexample to the original statement *)
+Example close_closes_all_cex :
+  let p := run [Close; GetConn 0%nat true 0] (init 1 1 1 1 0) in
+  step p Close = p /\ p_active p <> ∅.
+Proof.
+  split; [vm_compute; reflexivity|]. intros H. apply (f_equal (.!! 0%nat)) in H. vm_compute in H. discriminate.
+Qed.
 
 (* housekeeping is idempotent at a fixed clock (the harness may wait for "at least one" tick) *)
 Theorem tick_idempotent p now : reachable p -> step (step p (Tick now)) (Tick now) = step p (Tick now).
-Proof. Admitted.
+Proof.
+  intros I%reachable_inv. simpl.
+  destruct (tick_facts now p I) as [H EA]. destruct (tick1_facts now p I) as [I1 H1].
+  set (p' := tick now p) in *.
+  assert (Enow : set_now now p' = p').
+  { destruct H as (M & _). pose proof (meta_now _ _ M) as Hn. simpl in Hn.
+    apply pool_eq; try done. unfold meta. simpl. by rewrite Hn. }
+  assert (E1 : tick1 now p' = p').
+  { unfold tick1. rewrite Enow. apply fold_id. intros a. apply tick_active_noop. intros cs cur Ea.
+    rewrite EA in Ea. destruct (tick1_at now p a I) as (K & F & _). destruct (F _ _ Ea) as [N ->].
+    split; [done|]. intros c Hc. apply K in Hc as [_ R]. by rewrite (hk_rcond _ _ now c H), rcond_set_now. }
+  rewrite (tick_eq now p'), E1. apply fold_id. intros a. apply tick_idle_noop. intros q cap Ea.
+  unfold p' in Ea. rewrite tick_eq in Ea. destruct (tick2_at now (tick1 now p) a I1) as [F _].
+  destruct (F _ _ Ea) as [N EC]. split; [done|].
+  assert (H2 : hk (tick1 now p) p').
+  { unfold p'. rewrite tick_eq. apply fold_hk_simple. intros; apply tick_idle_hk. }
+  by rewrite (hk_econd _ _ now q H2).
+Qed.
 
 (* non-vacuity: a history that reaches the limit, retires, reuses and replaces *)
 Example pool_example :
@@ -128,4 +325,19 @@ Example pool_example :
                (init 2 5 100 50 0) in
   p_out p = [Some 0; Some 1; Some 1; Some 2; Some 3; Some 2]%nat /\ p_maxidle p = 2%nat /\
   length (open_to p 7%nat) = 2%nat.
-Proof. Admitted.
+Proof. repeat split; vm_compute; reflexivity. Qed.
+
+(* ---- audit ---- *)
+Print Assumptions reachable_inv.
+Print Assumptions normalise_limits.
+Print Assumptions bounds.
+Print Assumptions getconn_result.
+Print Assumptions getconn_dial_ok.
+Print Assumptions dead_never_handed_out.
+Print Assumptions failure_consumes_connection.
+Print Assumptions spares_busy.
+Print Assumptions tick_retires.
+Print Assumptions tick_closes_idle.
+Print Assumptions close_closes_all.
+Print Assumptions tick_idempotent.
+Print Assumptions pool_example.
